@@ -131,6 +131,10 @@ type pv struct {
 	At int    `json:"at"`
 	Ph string `json:"ph"`
 }
+
+// unjudged: the specification prescribes no verdict (at = -1: past the first key value of a list
+// with several keys).  The call is made - it is part of the history - and not compared.
+func (v pv) unjudged() bool { return v.At < 0 }
 type pathVec struct {
 	P []string `json:"p"`
 	S pv       `json:"s"`
@@ -156,7 +160,7 @@ func replayPath(args []string) {
 		die("replay-path wants pairs of schema and vector files")
 	}
 	w := create(*out)
-	n, bad := 0, 0
+	n, bad, unj := 0, 0, 0
 	for i := 0; i < len(files); i += 2 {
 		shs := readShapes(files[i])
 		if len(shs) != 1 {
@@ -190,8 +194,12 @@ func replayPath(args []string) {
 					if (m.want.Ok != rejectedFirst) != first {
 						continue
 					}
-					n++
 					got := dvm.ValidatePath(ms, m.p, m.inc)
+					if m.want.unjudged() {
+						unj++
+						continue
+					}
+					n++
 					good, at := pathAgrees(m.p, m.want, got)
 					if !good {
 						k := fmt.Sprint(m.p, m.inc)
@@ -207,7 +215,7 @@ func replayPath(args []string) {
 		}
 	}
 	w.close()
-	fmt.Printf("{\"evaluations\":%d,\"mismatches\":%d}\n", n, bad)
+	fmt.Printf("{\"evaluations\":%d,\"mismatches\":%d,\"unjudged\":%d}\n", n, bad, unj)
 }
 
 // pathAgrees: same verdict, and for a rejection the error identifies the spec's first offending
@@ -289,6 +297,9 @@ func concPath(args []string) {
 		close(start)
 		wg.Wait()
 		for x, m := range items {
+			if m.want.unjudged() {
+				continue
+			}
 			n++
 			if ok, at := pathAgrees(m.p, m.want, got[x]); !ok {
 				bad++
